@@ -11,13 +11,13 @@ from .. import refber as B
 from .. import refsnmp as S
 from ..loop import keyed
 from ..runner import rng_for
-from ..world import World, oid_t, to_ref
+from ..world import X690_WATCH, Meter, WorkBudgetExceeded, World, install_x690_watch, oid_t, to_ref
 
 ID = "C19"
 LEVEL = "exploration"
 RULE = ("Seeded plans: 1-2 listeners registered with the shipped register_trap_callback(callback, address, port, V2C(c), "
         "loop=SimLoop) (listen and SNMPTrapReceiverProtocol bind a simulated socket), 1-4 emitters with distinct source "
-        "addresses sending 3-40 datagrams at plan-chosen virtual instants: well-formed SNMPv2-Trap PDUs built by the "
+        "addresses (IPv4 2-tuples, or IPv6 peers reported as 4-tuples) sending 3-40 datagrams at plan-chosen virtual instants: well-formed SNMPv2-Trap PDUs built by the "
         "reference encoder (sysUpTime.0, snmpTrapOID.0, 0-8 payload bindings of every value type, minimal or legal long "
         "length forms), the same with a foreign community, strict prefixes (truncations), garbage the independent decoder "
         "rejects, single-bit flips of a dedicated base trap and other-version messages (the last two: robustness only, no "
@@ -36,11 +36,14 @@ ASSUMPTIONS = [
 ]
 PROBES = ["two_listeners", "foreign_community", "truncated", "garbage", "bitflip", "other_version", "dup_arrival", "lost",
           "reordered", "bad_then_valid", "callback_raises", "slow_callback_overlap", "zero_payload", "eight_payload",
-          "long_length_forms", "every_value_kind", "duplicate_payload_oid", "four_emitters"]
+          "long_length_forms", "every_value_kind", "duplicate_payload_oid", "four_emitters", "ipv6_peers",
+          "indefinite_no_eoc_reached"]
 shrink_lists = [("datagrams",), ("faults", "explicit")]
 SYSUPTIME = (1, 3, 6, 1, 2, 1, 1, 3, 0)
 TRAPOID = (1, 3, 6, 1, 6, 3, 1, 1, 4, 1, 0)
 LISTEN_IP = "10.0.0.1"
+EVENT_BUDGET = 1_000_000   # counted work for one whole run (<= 80 arrivals at ~3k events each, callbacks included)
+MINIMISE_EXECS = 80
 KINDS = ["int", "str", "null", "oid", "ip", "c32", "g32", "tt", "opaque", "c64"]
 
 
@@ -54,7 +57,11 @@ def plan_for(tier: str, seed: int, i: int) -> dict:
     if rng.random() < 0.25:
         listeners.append({"port": 10162, "community": rng.choice(["public", "other"])})
     n_em = rng.choice([1, 1, 2, 3, 4])
-    emitters = [["10.0.%d.%d" % (1 + e, rng.randrange(2, 250)), rng.randrange(1024, 65535)] for e in range(n_em)]
+    ipv6 = rng.random() < 0.2   # an IPv6 listener: asyncio reports peers as (host, port, flowinfo, scope_id)
+    if ipv6:
+        emitters = [["fd00::%x:%x" % (1 + e, rng.randrange(2, 65000)), rng.randrange(1024, 65535), 0, 0] for e in range(n_em)]
+    else:
+        emitters = [["10.0.%d.%d" % (1 + e, rng.randrange(2, 250)), rng.randrange(1024, 65535)] for e in range(n_em)]
     dgs = []
     t = 0
     for n in range(rng.randrange(3, 41)):
@@ -83,7 +90,8 @@ def plan_for(tier: str, seed: int, i: int) -> dict:
         for k in rng.sample(["drop", "dup", "delay"], rng.randrange(1, 4)):
             faults["rates"][k] = rng.choice([0.05, 0.1, 0.2])
     cb = {"raise_every": rng.choice([0, 0, 0, 3, 2]), "sleep_ticks": rng.choice([0, 0, 0, 10, 200])}
-    return {"prop": ID, "listeners": listeners, "emitters": emitters, "datagrams": dgs, "faults": faults, "callback": cb}
+    return {"prop": ID, "listeners": listeners, "emitters": emitters, "datagrams": dgs, "faults": faults, "callback": cb,
+            "ipv6": ipv6}
 
 
 def valid(plan: dict) -> bool:
@@ -91,6 +99,9 @@ def valid(plan: dict) -> bool:
 
 
 def simplify(plan: dict):
+    if plan.get("ipv6"):
+        p = dict(plan); p["ipv6"] = False
+        p["emitters"] = [["10.0.%d.9" % (1 + k), e[1]] for k, e in enumerate(plan["emitters"])]; yield p
     if plan["callback"] != {"raise_every": 0, "sleep_ticks": 0}:
         p = dict(plan); p["callback"] = {"raise_every": 0, "sleep_ticks": 0}; yield p
     for k, d in enumerate(plan["datagrams"]):
@@ -188,8 +199,9 @@ def execute(plan: dict) -> dict:
                 raise RuntimeError("callback failure injected by the harness")
         return callback
 
+    listen_ip = "fd00::1" if plan.get("ipv6") else LISTEN_IP
     for li, l in enumerate(plan["listeners"]):
-        register_trap_callback(make_cb(li), LISTEN_IP, l["port"], V2C(l["community"]), loop=loop)
+        register_trap_callback(make_cb(li), listen_ip, l["port"], V2C(l["community"]), loop=loop)
     listen_socks = list(w.net.all_sockets)
     records: List[dict] = []
     by_idx: Dict[int, dict] = {}
@@ -208,8 +220,8 @@ def execute(plan: dict) -> dict:
         if cls == "garbage" and not _garbage_is_malformed(raw):
             cls = "unclassified"
         em = plan["emitters"][d["emitter"] % len(plan["emitters"])]
-        src = (em[0], em[1])
-        dst = (LISTEN_IP, plan["listeners"][d["listener"]]["port"])
+        src = tuple(em)
+        dst = (listen_ip, plan["listeners"][d["listener"]]["port"])
         rec = {"n": d["n"], "cls": cls, "raw": raw, "vbs": vbs, "src": src, "listener": d["listener"], "d": d}
         records.append(rec)
         pending.setdefault((src, dst, raw), []).append(rec)
@@ -219,20 +231,41 @@ def execute(plan: dict) -> dict:
     async def main() -> None:
         await asyncio.sleep((t_last + 8192) / 1024.0)
 
-    w.run(main())
-    w.settle()
+    install_x690_watch()
+    indef0 = X690_WATCH["indef_no_eoc"]
+    hang = None
+    Meter.start(EVENT_BUDGET)
+    try:
+        w.run(main())
+    except WorkBudgetExceeded as e:
+        hang = e
+    finally:
+        Meter.stop()
+    if hang is None and Meter.tripped:
+        hang = WorkBudgetExceeded(EVENT_BUDGET)   # raised inside a callback task and kept there by asyncio
+    indef = X690_WATCH["indef_no_eoc"] > indef0
+    if hang is None:
+        w.settle()
     # arrivals at the listeners, in order
     arrivals: List[dict] = []
     for ev in w.net.events:
         if ev[2] == "arrive" and ev[3] == "a2c" and ev[4] in by_idx:
             arrivals.append(by_idx[ev[4]])
     violation = None
+    triggers: List[str] = []
 
     def fail(clause: str, d: str) -> None:
         nonlocal violation
         if violation is None:
             violation = {"clause": clause, "detail": d}
 
+    if hang is not None:
+        last = arrivals[-1] if arrivals else None
+        fail("listener-hang", "the listener did not finish processing datagram %s within %d counted events (function "
+             "entries, calls, loop jumps): it can never deliver a later notification" % (
+                 "#%d (%s) %s" % (last["n"], last["cls"], last["raw"].hex()[:120]) if last else "?", EVENT_BUDGET))
+        if indef:
+            triggers.append("C19-x690-indefinite-length-without-eoc")
     expected: Dict[int, int] = {}
     for a in arrivals:
         if a["cls"] == "valid":
@@ -242,6 +275,8 @@ def execute(plan: dict) -> dict:
     unmatched = 0
     view_errors: List[str] = []
     for g in got:
+        if "vbs" not in g and "error" not in g:
+            continue    # the run was cut short by the work budget while this callback was reading its argument
         if "error" in g:
             # lazily decoded content that cannot be read: can only stem from a datagram without delivery verdict
             # (a well-formed trap whose view fails is reported as not-delivered below, with this error)
@@ -258,7 +293,7 @@ def execute(plan: dict) -> dict:
             g["unmatched"] = True
             continue
         seen[rec["n"]] = seen.get(rec["n"], 0) + 1
-        if g["source"] != rec["src"]:
+        if g["source"] != rec["src"][:2]:
             fail("origin", "trap #%d from %s:%d delivered with source %r" % (rec["n"], rec["src"][0], rec["src"][1], g["source"]))
         if g["tag"] != "Trap":
             fail("pdu-type", "trap #%d delivered as %s" % (rec["n"], g["tag"]))
@@ -309,7 +344,8 @@ def execute(plan: dict) -> dict:
         "long_length_forms": int(any(r["cls"] == "valid" and r["d"]["lf"] for r in records)),
         "every_value_kind": int(len(kinds_seen) >= 8),
         "duplicate_payload_oid": int(any(r["cls"] == "valid" and len(set(o for o, _ in r["vbs"])) < len(r["vbs"]) for r in records)),
-        "four_emitters": int(len(plan["emitters"]) >= 4),
+        "four_emitters": int(len(plan["emitters"]) >= 4), "ipv6_peers": int(bool(plan.get("ipv6"))),
+        "indefinite_no_eoc_reached": int(indef),
     }
     counters = dict(w.net.counters)
     counters["callbacks"] = len(got)
@@ -321,9 +357,9 @@ def execute(plan: dict) -> dict:
         counters["probe_" + k] = v
     shape = hashlib.sha256(repr((arr_cls, [a["listener"] for a in arrivals], sorted(fired))).encode()).hexdigest()[:16]
     out = {
-        "violation": violation, "digest": w.net.digest(), "fired": list(w.net.fired), "triggers": [], "counters": counters,
+        "violation": violation, "digest": w.net.digest(), "fired": list(w.net.fired), "triggers": triggers, "counters": counters,
         "shape": shape, "nontrivial": bool(expected) and (len(set(arr_cls)) > 1 or bool(fired)),
-        "sim_s": loop.time(), "exchanges": len(arrivals),
+        "sim_s": loop.time(), "exchanges": len(arrivals), "sets": {"events_per_run_max": [Meter.count]},
         "summary": "%d datagrams, %d arrivals (%s), %d callbacks, %d loop exceptions" % (
             len(records), len(arrivals), ",".join("%s=%d" % (c, arr_cls.count(c)) for c in sorted(set(arr_cls))),
             len(got), len(loop.exceptions)),
